@@ -705,6 +705,29 @@ waitForTables:
 			case cancel <- true:
 				tables = append(tables, subscriber.t)
 				offsets = append(offsets, subscriber.os)
+				// The follow request of the new session has to name the late table
+				// too, otherwise a leader never routes entries by partition keys
+				// that only this table uses. The cancelled session may still be
+				// reading the old map, so build a fresh one.
+				newPartitions := make(map[string]*common.Partition, len(partitions)+1)
+				for keys, p := range partitions {
+					cp := *p
+					cp.Tables = append([]*common.PartitionTable(nil), p.Tables...)
+					newPartitions[keys] = &cp
+				}
+				partitionKeysString, partitionKeys := sortedPartitionKeys(subscriber.t.PartitionBy)
+				partition := newPartitions[partitionKeysString]
+				if partition == nil {
+					partition = &common.Partition{
+						Keys: partitionKeys,
+					}
+					newPartitions[partitionKeysString] = partition
+				}
+				partition.Tables = append(partition.Tables, &common.PartitionTable{
+					Name:    subscriber.t.Name,
+					Offsets: subscriber.os,
+				})
+				partitions = newPartitions
 			}
 		}
 	}
